@@ -69,6 +69,21 @@ func (t *zzPT) text(full bool) string {
 			return "(" + t.op + t.kids[0].text(full) + ")"
 		}
 		return t.op + t.kids[0].text(full)
+	case "str":
+		return "\"" + t.op + "\""
+	case "arr":
+		out := "["
+		for i, k := range t.kids {
+			if i > 0 {
+				out += ", "
+			}
+			out += k.text(full)
+		}
+		return out + "]"
+	case "hash":
+		return "{" + t.kids[0].text(full) + ": " + t.kids[1].text(full) + "}"
+	case "field":
+		return t.kids[0].text(full) + "." + t.kids[1].text(full)
 	case "index":
 		return t.kids[0].text(full) + "[" + t.kids[1].text(full) + "]"
 	case "call":
@@ -95,9 +110,34 @@ func zzSameTree(n ast.Expression, r *zzPT) bool {
 	case *ast.IntegerLiteral:
 		return r.kind == "id" && x.Token.Literal == r.op
 	case *ast.InfixExpression:
+		if x.Operator == "." {
+			// (the member name reaches the tree as a string)
+			name, isName := x.Right.(*ast.StringLiteral)
+			return r.kind == "field" && zzSameTree(x.Left, r.kids[0]) && isName && name.Value == r.kids[1].op
+		}
 		return r.kind == "infix" && x.Operator == r.op && zzSameTree(x.Left, r.kids[0]) && zzSameTree(x.Right, r.kids[1])
 	case *ast.PrefixExpression:
 		return r.kind == "prefix" && x.Operator == r.op && zzSameTree(x.Right, r.kids[0])
+	case *ast.StringLiteral:
+		return r.kind == "str" && x.Value == r.op
+	case *ast.ArrayLiteral:
+		if r.kind != "arr" || len(x.Elements) != len(r.kids) {
+			return false
+		}
+		for i := range r.kids {
+			if !zzSameTree(x.Elements[i], r.kids[i]) {
+				return false
+			}
+		}
+		return true
+	case *ast.HashLiteral:
+		if r.kind != "hash" || len(x.Pairs) != 1 {
+			return false
+		}
+		for k, v := range x.Pairs {
+			return zzSameTree(k, r.kids[0]) && zzSameTree(v, r.kids[1])
+		}
+		return false
 	case *ast.IndexExpression:
 		return r.kind == "index" && zzSameTree(x.Left, r.kids[0]) && zzSameTree(x.Index, r.kids[1])
 	case *ast.CallExpression:
@@ -124,6 +164,35 @@ func zzParseReturn(src string) (ast.Expression, bool) {
 func zzOperand(sv *zzsv.T, name string, decorate bool) *zzPT {
 	t := ptID(name)
 	if !decorate {
+		return t
+	}
+	// literal containers and strings as operands, indexed in place; chains of
+	// index / call / field selections: index and call bind tightest of all
+	idx := func(l, i *zzPT) *zzPT { return &zzPT{kind: "index", kids: []*zzPT{l, i}} }
+	if atom := sv.Choice("atom", 10); atom > 0 {
+		switch atom {
+		case 1:
+			t = idx(&zzPT{kind: "arr", kids: []*zzPT{ptID("x"), ptID("y")}}, ptID("i"))
+		case 2:
+			t = idx(&zzPT{kind: "hash", kids: []*zzPT{{kind: "str", op: "k"}, ptID("x")}}, &zzPT{kind: "str", op: "k"})
+		case 3:
+			t = &zzPT{kind: "field", kids: []*zzPT{{kind: "hash", kids: []*zzPT{{kind: "str", op: "k"}, ptID("x")}}, ptID("k")}}
+		case 4:
+			t = idx(&zzPT{kind: "str", op: "s"}, ptID("i"))
+		case 5:
+			t = idx(idx(t, ptID("i")), ptID("j"))
+		case 6:
+			t = idx(&zzPT{kind: "call", kids: []*zzPT{t, ptID("i")}}, ptID("j"))
+		case 7:
+			t = idx(&zzPT{kind: "field", kids: []*zzPT{t, ptID("k")}}, ptID("i"))
+		case 8:
+			t = &zzPT{kind: "arr", kids: []*zzPT{ptID("x"), ptID("y")}}
+		default:
+			t = idx(&zzPT{kind: "arr", kids: []*zzPT{idx(&zzPT{kind: "arr", kids: []*zzPT{ptID("x")}}, ptID("i")), ptID("y")}}, ptID("j"))
+		}
+		if sv.Choice("neg", 2) == 1 {
+			t = &zzPT{kind: "prefix", op: "-", kids: []*zzPT{t}}
+		}
 		return t
 	}
 	switch sv.Choice("post", 3) {
